@@ -66,7 +66,7 @@ def shards(tier):
     out = [dict(s, kind='sigma') for s in strings.shards('mid' if tier == 'quick' else 'thorough')]
     plan = 'fault-quick' if tier == 'quick' else 'fault-thorough'
     out += [dict(s, kind='neigh', tier=tier) for s in layers.shards(plan, ())]
-    out += [dict(s, kind='ws', tier=tier) for s in layers.shards(plan, ())]
+    out += [dict(s, kind='ws', tier=tier) for s in layers.shards(plan, ('args',))]
     return out
 
 
